@@ -131,9 +131,28 @@ fn one_call(name: &str, args: &[MVal], w: &World, gnodes: usize, functions: &Fun
         stdlib::call(name, args, &mut ctx)
     };
     let before = graph.node_count();
-    let real = catch(|| {
-        let mut it = real_args.into_iter();
-        functions.call(&Identifier::from(name), &mut graph, &w.source, &mut it)
+    // the parameters are any iterator of values: exact-size ones, and ones that cannot tell how
+    // many values are left (`size_hint` of (0, None) / (0, Some(n)))
+    let shape = mix(&[hash_str(name), hash_str(&format!("{:?}", args))]) % 4;
+    let real = catch(|| match shape {
+        0 => {
+            let mut it = real_args.into_iter().filter(|_| true);
+            functions.call(&Identifier::from(name), &mut graph, &w.source, &mut it)
+        }
+        1 => {
+            let mut inner = real_args.into_iter();
+            let mut it = std::iter::from_fn(move || inner.next());
+            functions.call(&Identifier::from(name), &mut graph, &w.source, &mut it)
+        }
+        _ => {
+            let mut it = real_args.into_iter();
+            functions.call(&Identifier::from(name), &mut graph, &w.source, &mut it)
+        }
+    });
+    out.feat(match shape {
+        0 => "parameters:filtered_iterator",
+        1 => "parameters:from_fn_iterator",
+        _ => "parameters:vec_iterator",
     });
     out.eval();
     let case = || json!({"function": name, "arguments": args.iter().map(|a| a.to_json()).collect::<Vec<_>>(), "source": crate::util::trunc(&w.source, 300)});
